@@ -343,6 +343,41 @@ def equal(a, b) -> bool:
     return a == b
 
 
+REDUCED: set = set()   # sortkeys of atoms declared to lie in [0, modulus) for the current proof (mod(x, n) = x)
+
+
+def mk_mod(a: Rat, n: Rat) -> Rat:
+    """Canonical a mod n (n > 0): inner residues with the same modulus are absorbed ((x mod n) + y) mod n = (x + y) mod n,
+    integer multiples of n are dropped, and a declared-reduced atom is its own residue."""
+    if not isinstance(a, Rat) or not isinstance(n, Rat):
+        return app("mod", a, n)
+    nat = n.as_atom()
+    if len(a.d) != 1 or _ONE_M not in a.d:
+        return app("mod", a, n)
+    den = a.d[_ONE_M]
+    out = Rat.const(0)
+    for m, c in a.n.items():
+        c = c / den
+        term = None
+        if len(m) == 1:
+            (at, e), = m
+            if e == 1 and c.denominator == 1:
+                if at.op == "mod" and isinstance(at.args[1], Rat) and at.args[1].eq(n) and isinstance(at.args[0], Rat):
+                    term = at.args[0] * Rat.const(c)
+                elif nat is not None and at is nat:
+                    term = Rat.const(0)          # k * n == 0 (mod n)
+        if term is None:
+            term = Rat({m: c})
+        out = out + term
+    cst = out.as_const()
+    if cst is not None and cst == 0:
+        return Rat.const(0)
+    oat = out.as_atom()
+    if oat is not None and oat.sortkey() in REDUCED:
+        return out
+    return app("mod", out, n)
+
+
 def mk_exp(a: Rat) -> Rat:
     if a.is_zero():
         return C(1)
